@@ -94,6 +94,9 @@ def do_revert(flt):
     with open(os.path.join(ROOT, "known_findings.json")) as f:
         fixed = json.load(f)["fixed"]
     res = load_results()
+    # cheap checks first: the four properties decided on the shared interpreter campaign cost ten minutes per change
+    heavy = {"C01": 3, "C02": 3, "C03": 3, "C13": 3, "C07": 2, "C14": 2, "C04": 1, "C06": 1}
+    fixed = sorted(fixed, key=lambda l: heavy.get(re.match(r"fixed: property=(C\d+)", l).group(1), 0))
     for line in fixed:
         m = re.match(r"fixed: property=(C\d+) ([0-9a-f]+) (.*)", line)
         pid, h, what = m.group(1), m.group(2), m.group(3)
